@@ -29,6 +29,7 @@ var (
 	verifReqLog   []*vReq
 	verifResponder func(req *http.Request) (int, []byte, error)
 	verifPlaylists []playlist.Playlist
+	verifFaultHook func(req *http.Request) (*http.Response, error)
 )
 
 type verifHTTPError struct{ msg string }
@@ -57,6 +58,11 @@ func verifStub_ClientDo(c *http.Client, req *http.Request) (*http.Response, erro
 		default:
 		}
 	}
+	if verifFaultHook != nil {
+		if res, err := verifFaultHook(req); res != nil || err != nil {
+			return res, err
+		}
+	}
 	code, body, err := verifResponder(req)
 	if err != nil {
 		return nil, err
@@ -77,3 +83,13 @@ func verifStub_PlaylistUnmarshal(byts []byte) (playlist.Playlist, error) {
 	}
 	return verifPlaylists[int(byts[2])|int(byts[3])<<8], nil
 }
+
+func containsStr(s, sub string) bool {
+	for i := 0; i+len(sub) <= len(s); i++ {
+		if s[i:i+len(sub)] == sub {
+			return true
+		}
+	}
+	return false
+}
+
